@@ -5,7 +5,7 @@ use std::{
     fs::{self, File, OpenOptions},
     io::{Read, Seek, SeekFrom, Write},
     num::TryFromIntError,
-    path::{Path, PathBuf},
+    path::{Component, Path, PathBuf},
 };
 
 use bytes::Bytes;
@@ -215,6 +215,13 @@ impl LocalDestination {
         if self.is_file {
             self.path.clone()
         } else {
+            // Only use the normal components of the item: node names read from a repository could
+            // contain `..` or be absolute paths, which must never lead out of the destination.
+            let item: PathBuf = item
+                .as_ref()
+                .components()
+                .filter(|comp| matches!(comp, Component::Normal(_)))
+                .collect();
             self.path.join(item)
         }
     }
@@ -272,7 +279,7 @@ impl LocalDestination {
     ///
     /// This will create the directory structure recursively.
     pub(crate) fn create_dir(&self, item: impl AsRef<Path>) -> LocalDestinationResult<()> {
-        let dirname = self.path.join(item);
+        let dirname = self.path(item);
         fs::create_dir_all(dirname).map_err(LocalDestinationErrorKind::DirectoryCreationFailed)?;
         Ok(())
     }
